@@ -196,17 +196,17 @@ def handleDisk (blob : String → List Nat) (args : List String) : String × Lis
   | "disk.create" :: fl :: v :: archive :: outp :: n :: rest =>
       let srcs := (rest.take n.toNat!).map uncp
       let w := (worldOf' (rest.drop n.toNat!))
-      if pathsModelled (uncp archive :: srcs) then showDiskOutcome (Disk.createCmd (flavourOf fl) (lookupWorld w) (v == "v") (uncp archive) srcs) outp
+      if pathsModelled (uncp archive :: srcs) then showDiskOutcome (Disk.runCreate (flavourOf fl) (lookupWorld w) (v == "v") (uncp archive) srcs) outp
       else ("unmodelled", [])
   | "disk.add" :: fl :: v :: archive :: pre :: outp :: n :: rest =>
       let srcs := (rest.take n.toNat!).map uncp
       let w := (worldOf' (rest.drop n.toNat!))
-      if pathsModelled (uncp archive :: srcs) then showDiskOutcome (Disk.addCmd (flavourOf fl) (lookupWorld w) (v == "v") (uncp archive) (blob pre) srcs) outp
+      if pathsModelled (uncp archive :: srcs) then showDiskOutcome (Disk.runAdd (flavourOf fl) (lookupWorld w) (v == "v") (uncp archive) (blob pre) srcs) outp
       else ("unmodelled", [])
   | ["disk.list", fl, v, pre] => showDiskOutcome (Disk.list (flavourOf fl) (v == "v") (blob pre)) "/dev/null"
   | ["disk.extract", fl, v, archive, into, pre, outp] =>
       if pathsModelled (uncp archive :: (if into == "~" then [] else [uncp into])) then
-        showDiskOutcome (Disk.extract (flavourOf fl) (v == "v") (uncp archive) (if into == "~" then none else some (uncp into)) (blob pre)) outp
+        showDiskOutcome (Disk.runExtract (flavourOf fl) (v == "v") (uncp archive) (if into == "~" then none else some (uncp into)) (blob pre)) outp
       else ("unmodelled", [])
   | ["disk.archivename", fl, archive] =>
       ((match Disk.checkArchiveName (flavourOf fl) (uncp archive) with | .ok _ => "accepted" | .error _ => "refused"), [])
